@@ -185,6 +185,11 @@ func genCase(r *vh.Rand, i int, tier string) string {
 			emit("RESTART")
 			continue
 		}
+		if r.Chance(1, 25) {
+			// the client library asks about a session without proposing anything
+			emit(fmt.Sprintf("Q %d", c.id))
+			continue
+		}
 		switch {
 		case x < 12:
 			s := entryText(c.id, seriesRegister, 0, nil)
@@ -275,6 +280,9 @@ func genCase(r *vh.Rand, i int, tier string) string {
 	kind := ""
 	if !big && r.Chance(2, 5) {
 		kind = " kind=conc"
+	}
+	if !big && r.Chance(1, 3) {
+		kind += " role=nonvoting"
 	}
 	return fmt.Sprintf("cap=%d%s | %s", cap, kind, strings.Join(ops, " ; "))
 }
